@@ -9,12 +9,13 @@ from .lib.mir import AnchorLost
 CONFIGS_QUICK = ["A"]
 CONFIGS_THOROUGH = ["A", "R", "ASYNCSTD", "SMOL", "NIO", "GLOMMIO"]
 TECHNIQUE = "event-order rules (reachability avoiding an event, dominance) on the built MIR of the poll functions and of howl's coroutine; atomic-ordering table"
-LEVEL_TEXT = ("Decides clauses C18-a/b: in UntilInterrupt::poll no path from the publication of the waker (WAKER.swap, or the WAKER mutex acquisition on glommio) "
-              "to `return Poll::Pending` avoids a re-read of the interrupt flag -- the code-shape condition without which the schedule "
-              "load(false) . handler . publish . Pending strands the waker; the signal handler stores the flag before it takes the waker, all with SeqCst; "
-              "in howl, WaitGroup::add dominates the spawn, the spawned future awaits session.manage() before releasing its handle, the accept loop is left "
-              "only on the None edge of until_interrupt, the listener is dropped and the original WaitGroup awaited before the return; WaitGroup counts with "
-              "fetch_add/fetch_sub, is Ready only on a zero load and is not Clone. Decides these conditions, not liveness under all interleavings.")
+LEVEL_TEXT = ('Decides clauses C18-a/b: in UntilInterrupt::poll no path from the publication of the waker (WAKER.swap, or the WAKER mutex acquisition on glommio) to '
+              '`return Poll::Pending` avoids a re-read of the interrupt flag -- the code-shape condition without which the schedule load(false) . handler . publish .'
+              ' Pending strands the waker; the signal handler stores the flag before it takes the waker, all with SeqCst; in howl, WaitGroup::add dominates the spawn'
+              ', the spawned future awaits session.manage() before releasing its handle, the accept loop is left only on the None edge of until_interrupt, the listen'
+              'er is dropped and the original WaitGroup awaited before the return; WaitGroup counts with fetch_add/fetch_sub, is Ready only on a zero load and is not'
+              ' Clone. Decides these conditions, not liveness under all interleavings. Nothing reachable from Session::manage spawns or detaches a task, so the sessi'
+              "on's WaitGroup handle covers the whole service of the connection (WebSocket phase included).")
 
 
 def run(ck, progs):
@@ -147,6 +148,23 @@ def c18b(ck, prog):
             rel = [c.bb for c in done] + drops
             ok3 = bool(man) and bool(polls) and bool(rel) and all(paths.has_fact(task, prog, r, paths.variant_of_call(r"Future::poll$", "Ready")) for r in rel)
             ck.ob(R, "task:manage-then-release", ok3, task.loc(None), "" if ok3 else "the session task can release its WaitGroup handle before session.manage() has completed", how="wg released only under the Ready edge of manage()'s poll")
+    # the handle covers the whole service of the connection: nothing reachable from Session::manage starts a task of its own
+    # (a WebSocket or streaming phase moved into a detached task would outlive the handle, and howl would return under it)
+    from .lib.reach import Reach
+    man_fn = prog.find(r"^ohkami::session::Session(::<.*>)?::manage$")
+    if not man_fn:
+        raise AnchorLost("Session::manage not found")
+    rr = Reach(prog, man_fn, boundary=[r"FangProcCaller|fang::.*Proc|Handler|IntoHandler|Fn(Once|Mut)?<"])
+    det = []
+    for g in rr.reached.values():
+        for c in g.calls():
+            if re.search(r"(^|::)(spawn|spawn_local|spawn_blocking|detach)$", c.callee or "") and not re.search(r"^core::|^alloc::", c.callee or ""):
+                det.append((g, c))
+    ok = not det
+    ck.ob(R, "session:no-detached-work", ok, det[0][0].loc(det[0][1].sp) if det else man_fn[0].loc(None),
+          "" if ok else "%s, reached from Session::manage, starts a task of its own (%s): that work is not covered by the session's WaitGroup handle, so after an interrupt howl returns while it is still being served" % (det[0][0].key, det[0][1].callee),
+          how="no spawn/detach among the %d functions reachable from Session::manage" % len(rr.reached))
+    ck.floor(R, "functions reachable from Session::manage", len(rr.reached), 20)
     # loop exit only on the None edge of until_interrupt; then drop(listener); then wg.await; then return
     ui = howl.calls_to(r"CtrlC>?::until_interrupt$")
     wgpoll = [c for c in howl.calls() if re.search(r"Future::poll$", c.decl or "") and ("WaitGroup" in " ".join(c.targs) or "WaitGroup" in (c.callee or ""))]
